@@ -266,6 +266,9 @@ class Solver:
             raise ValueError("Pin already connected")
         if (structure2, pin2) in self.connections_list:
             raise ValueError("Pin already connected")
+        for tup in [(structure1, pin1), (structure2, pin2)]:
+            if tup not in self.free_pins:
+                raise ValueError(f"Pin {tup[1]} of {tup[0]} is not a free pin of {self}")
         self.connections_list.append((structure1, pin1))
         self.connections_list.append((structure2, pin2))
         self.connections[(structure1, pin1)] = (structure2, pin2)
